@@ -140,6 +140,15 @@ def concretize(d):
         argv, stdin = b.render(repl)
         binname = "btcdeb_tty" if b.mode == "argv" else b.tool
         return dict(tool=b.tool, bin=binname, argv=argv, stdin=stdin, env=dict(b.env), base=b.id, kind=kind, desc=desc)
+    if t == "I":
+        # a single deviation of a transaction argument of an auto-configured base, run in the interactive front end
+        # (start-up view, print, steps, rewind) instead of batch mode
+        b = W.bases[d[1]]
+        kind, desc, repl = _per(d[1])[d[2]][d[3]]
+        argv, _ = b.render(repl)
+        cmds = I.INTERACTIVE_TX_COMMANDS
+        return dict(tool="btcdeb_tty", bin="btcdeb_tty", argv=argv, stdin="".join(c + "\n" for c in cmds), env=dict(b.env), base=b.id + "@tty",
+                    kind=kind + "@interactive", desc=desc + " ; then " + " ; ".join(cmds))
     if t == "T":
         sid, argv = W.sess[d[1]]
         cmds = [W.alpha[i] for i in d[2]]
@@ -620,6 +629,19 @@ def enumerate_space(ctx, bases, txs):
             for di in range(len(p)):
                 items.append((("D", bi, si, di), "asan"))
                 n_single += 1
+    # the transaction-argument deviations of the auto-configured bases once more, in the interactive front end
+    n_itx = 0
+    for bi, b in enumerate(bases):
+        if bi not in per_all or b.tool != "btcdeb" or b.mode != "batch" or b.klass not in ("tx+txin auto", "select"):
+            continue
+        for si, sl in enumerate(b.slots):
+            if sl.vtype not in ("tx", "txin"):
+                continue
+            for di, (k, dd, r) in enumerate(per_all[bi][si]):
+                if tier == "quick" and k in ("truncate", "non-hex-char", "odd-length-hex"):
+                    continue      # quick: the structural (field-level) deviations; thorough: all
+                items.append((("I", bi, si, di), "asan"))
+                n_itx += 1
     # pairs: pair-marked bases with at least two slots, smallest first, while the budget of the tier lasts
     budget = 6500 if tier == "quick" else 10 ** 9
     pb = sorted([bi for bi, b in enumerate(bases) if b.pair and bi in per_all], key=lambda bi: (bases[bi].size(), bases[bi].id))
@@ -706,6 +728,7 @@ def enumerate_space(ctx, bases, txs):
             " (extra-option pseudo slot excluded in quick)" if tier == "quick" else " (extra-option pseudo slot included)"),
         "interactive_sessions": [s[0] for s in sess], "command_alphabet": alpha, "command_alphabet_size": A,
         "max_sequence_length": L, "max_sequence_length_rule": "sessions 1-6 and %s: L; the other sessions added later: L-1" % sorted(I.FULL_DEPTH_SESSIONS), "command_sequences": n_seq,
+        "interactive_tx_deviations": n_itx, "interactive_tx_commands": I.INTERACTIVE_TX_COMMANDS,
         "exec_lines_with_two_operations": len(xlines), "exec_line_patterns": I.EXEC_PAIR_PATTERNS, "exec_line_cases": n_x,
         "tf_commands": len(tfc), "tf_rule": "each `tf fn args` alone on every session, and as (step,tf) (tf,step) (rewind,tf) (tf,rewind) " + (
             "on the first session" if tier == "quick" else "on every session"),
